@@ -15,7 +15,7 @@ ROOT = '/tmp/mut/mutants'
 FILES = {
     'crates/order_book/src/orderbook.rs': 'C01 C06 C03 C04 C02 C13 C12 C07 C05 C08 C11 C14',
     'crates/order_book/src/side.rs': 'C01 C02 C06 C05 C07 C12 C13 C03 C04 C08 C11',
-    'crates/order_book/src/types.rs': 'C01 C02 C03 C04 C07 C11 C12 C08',
+    'crates/order_book/src/types.rs': 'C01 C02 C03 C04 C07 C11 C12 C08 C18 C19',
     'crates/order_book/src/market.rs': 'C14 C07 C02 C12 C13 C08 C10 C11',
     'crates/step_sim/src/env.rs': 'C08 C10 C11 C15 C05 C13 C12 C09 C16',
     'crates/step_sim/src/market_env.rs': 'C08 C14 C10 C11 C15 C05 C13 C12 C09 C16',
